@@ -272,6 +272,9 @@ def numba_kernel_record(repo, fn):
     raise AnalysisError(f"{fn.qualname}: cannot recognise the per-group result of the numba kernel")
 
 
+LIB_DEFAULTS = {"numpy.std": {"ddof": 0}, "numpy.var": {"ddof": 0}}     # NumPy: ddof=0 is the default of std/var
+
+
 def group_form(repo, fn):
     """Record of the group-wise closure of helper ``fn``."""
     clo = fn.nested.get("aggregate")
@@ -298,11 +301,26 @@ def group_form(repo, fn):
     rec["drop_na"] = norm(dn) if dn is not None else None
     # which function is bound in generic(...)?
     bound = []
+    from .facts import facts_at as _facts_at
+
+    def implied(stat, kws, node):
+        """An extra parameter of the helper that is not passed on is still honoured where the branch is taken only
+        for the library's own default of that parameter (std/var: `if ddof == 0` -> np.std(x) is np.std(x, ddof=0))."""
+        out = dict(kws)
+        for p_, dflt in LIB_DEFAULTS.get(stat, {}).items():
+            if p_ in out or p_ not in (fn.kwonly + fn.params):
+                continue
+            if any(k == "T" and t in (f"{p_} == {dflt}", f"{dflt} == {p_}") for k, t in _facts_at(clo, node)) or \
+                    any(k == "F" and t in (f"{p_} != {dflt}", f"{dflt} != {p_}") for k, t in _facts_at(clo, node)):
+                out[p_] = p_
+        return out
     for n in body_nodes(clo.node):
         if isinstance(n, ast.Call) and isinstance(n.func, ast.Call) and norm(n.func.func) == "select" and n.args:
-            bound.append((repo.dotted(clo, n.args[0]) or norm(n.args[0]), {}))
+            st = repo.dotted(clo, n.args[0]) or norm(n.args[0])
+            bound.append((st, implied(st, {}, n)))
         if isinstance(n, ast.Call) and norm(n.func) in ("generic", "generic_numba") and n.args:
-            bound.append((repo.dotted(clo, n.args[0]) or norm(n.args[0]), {k.arg: norm(k.value) for k in n.keywords}))
+            st = repo.dotted(clo, n.args[0]) or norm(n.args[0])
+            bound.append((st, implied(st, {k.arg: norm(k.value) for k in n.keywords}, n)))
     if bound:
         rec["kernel"] = "generic"
         rec["stat"] = bound
